@@ -3,7 +3,7 @@
 Filter.tla (on top of Html.tla's WHATWG tokenizer subset): abstract requirement (i) OnlyLt, (ii) a predicate
 that rejects nothing changes nothing, (iii) NoRejectedStart on the tokenised OUTPUT; plus the
 implementation-shaped scanner FR as a second definition. TLC checks FR against the requirement for every
-raw string of <= N tokens over a 14-token alphabet (ScannerSound, ScannerIdentity) and emits the vectors;
+raw string of <= N tokens over a 15-token alphabet, and <= N+1 tokens of a 9-token alphabet after one of five first lines that end inside a comment, bogus comment or tag (the scanner state carries across lines) (ScannerSound, ScannerIdentity) and emits the vectors;
 each is rendered by the real renderer as an HTML block and as inline raw HTML with and without each
 predicate (direction A), and the recorded outputs - of these vectors and of arbitrary '<'-rich inputs - are
 judged by TLC with the abstract requirement only (direction B).
@@ -13,11 +13,13 @@ import sys
 from checks import tracefam
 
 HEAD = "INIT FInit\nNEXT FNext\nINVARIANT Accepted\n"
-CONSTS = {"MaxToks": "0", "TokSet": "{}"}
-TOKS = '{"<", ">", "!", "-", "/", "?", "[CDATA[", "]]", "script", "ScRiPt", "b", "3", " ", "DQ"}'
+CONSTS = {"MaxToks": "0", "TokSet": "{}", "PerLineState": "FALSE", "FirstLines": "{}"}
+TOKS = '{"<", ">", "!", "-", "/", "?", "[CDATA[", "]]", "script", "ScRiPt", "b", "3", " ", "DQ", "NL"}'
+LINETOKS = '{"<!--", ">", "<script", "3", "-", "DQ", "!", "<", "NL"}'
+FIRSTLINES = '{"P?", "Pb", "Pcdata", "Pcomment", "Pattr"}'
 
 
-def cfg(n, emit):
+def cfg(n, emit, perline="FALSE", toks=None, first="{}"):
     return """INIT GenInit
 NEXT GenNext
 INVARIANTS ScannerSound ScannerIdentity
@@ -25,8 +27,10 @@ INVARIANTS ScannerSound ScannerIdentity
 CONSTANTS
   MaxToks = %d
   TokSet = %s
+  PerLineState = %s
+  FirstLines = %s
   File = "none"
-""" % ("CONSTRAINT EmitRaw\n" if emit else "", n, TOKS)
+""" % ("CONSTRAINT EmitRaw\n" if emit else "", n, toks or TOKS, perline, first)
 
 
 def regen(base, rp):
@@ -37,11 +41,14 @@ def run(ctx):
     ctx.build_harness()
     quick = ctx.tier == "quick"
     r = ctx.tlc("Filter", cfg(3 if quick else 4, True), name="Filter_vectors", timeout=3000)
-    jobs = [dict(module="Filter", cfg_text=cfg(5 if quick else 6, False), name="Filter_sound", workers=16, timeout=6000)]
-    ctx.tlc_many(jobs, parallel=1)
+    jobs = [dict(module="Filter", cfg_text=cfg(4 if quick else 6, False), name="Filter_sound", workers=8, timeout=6000),
+            # two-line raw HTML: a first line that ends inside a comment / bogus comment / tag, then <= 5/6 more tokens
+            dict(module="Filter", cfg_text=cfg(6 if quick else 7, False, toks=LINETOKS, first=FIRSTLINES), name="Filter_lines", workers=8, timeout=6000)]
+    ctx.tlc_many(jobs, parallel=2)
+    r2 = ctx.tlc("Filter", cfg(4 if quick else 5, True, toks=LINETOKS, first=FIRSTLINES), name="Filter_line_vectors", timeout=3000)
 
     def gen(base):
-        return ["filter", "gen", base, r["out"]]
+        return ["filter", "gen", base, r["out"], r2["out"]]
     ctx.rule = ("model vectors: every raw string of <= 3/4 tokens over {<, >, !, -, /, ?, [CDATA[, ]], script, ScRiPt, b, 3, space, \"} as HTML block and as "
                 "inline raw HTML; spec examples with '<'; seeded piece products (comments, CDATA, declarations, processing instructions, raw-text elements, "
                 "stray '<'); seeded mixed sources; x predicates {GFM, {script}, {b,script}, never, always}; outputs de-duplicated; non-trivial = the filter changed "
@@ -58,6 +65,11 @@ def replay(ctx, path):
 def selftest(ctx):
     import json
     ctx.build_harness()
+    # the model exhibits the finding F-C17-per-line-filter-state: with the PerLineState deviation ScannerSound fails
+    rdev = ctx.tlc("Filter", cfg(6, False, perline="TRUE", toks=LINETOKS, first=FIRSTLINES), name="Filter_perline", expect_clean=False)
+    if not any(v["name"] == "ScannerSound" for v in rdev["violations"]):
+        print("selftest C17: PerLineState deviation did not violate ScannerSound -> FAILED")
+        sys.exit(2)
     base = ctx.scratch + "/self.ndjson"
     ctx.harness(["filter", "gen", base], env={"VERIF_SHARDS": "64"})
     lines = open(base + ".0").read().split("\n")[:300]
